@@ -729,11 +729,14 @@ func (s *Stream) Flush() (err error) {
 	flushed := 0
 	for i := 0; i < len(s.pendingFrames); i++ {
 		_, err = s.codecConn.WriteNext(*s.pendingFrames[i])
+		// Whether or not the transport took all of it, the frame has been encoded into the codec's write buffer, and
+		// what is left there goes out in front of the next write. Keeping the frame queued as well would encode it a
+		// second time on the next flush and put it on the wire twice (two Close frames, two Pongs for one Ping).
+		s.releaseFrame(s.pendingFrames[i])
+		flushed++
 		if err != nil {
 			break
 		}
-		s.releaseFrame(s.pendingFrames[i])
-		flushed++
 	}
 	s.pendingFrames = s.pendingFrames[flushed:]
 
